@@ -242,7 +242,9 @@ def old_draw_unit(case, graphics):
         w, h, l, t, r, b, fw, fh, PW, PH = frame_world(st)
         T = OldTerm(eng, st, graphics)
         install_print(eng, T)
-        st.pc.append(PW <= T.TW)        # C06 speaks about output that fits the terminal width (check_size=False may waive the check)
+        # C06 speaks about output that fits the terminal width: the padding width is ALWAYS validated (documented: check_size
+        # does not affect it) - an obligation at the point where rendering starts - and check_size=False may waive only the
+        # check of the render itself, which is then assumed to fit (m_renderer below)
         isatty = z3.Bool("isatty")
         st.ghost["isatty"] = isatty
         eng.genv["sys"] = Namespace("sys", {"stdout": T.out})
@@ -261,8 +263,10 @@ def old_draw_unit(case, graphics):
 
         def check_formatting(e, s, recv, a, k):
             # contract of _check_formatting (C19/C05 units): validated alignment, absolute padding size
-            e.raise_(ExcVal("ValueError"), e.fork(s))
-            e.raise_(ExcVal("TypeError"), e.fork(s))
+            for exc in ("ValueError", "TypeError"):
+                s1 = e.fork(s)
+                s1.ghost["formatting_rejected"] = True
+                e.raise_(ExcVal(exc), s1)
             s = e.fork(s)
             s.pc += [fw == z3.If(pad_width > 0, pad_width, Max(T.TW + pad_width, 1)), fh == z3.If(pad_height > 0, pad_height, Max(T.TH + pad_height, 1))]
             return [(fmt, s)]
@@ -280,6 +284,12 @@ def old_draw_unit(case, graphics):
             e.oblige("C06:nothing-written-before-size-validation", s, s.ghost["writes_n"] == 0, prop="C06", kind="pre")
             e.oblige("C06:animations-always-validated,stills-per-check_size/scroll", s,
                      And(Eq(k.get("animated"), animation), Eq(k.get("check_size"), check_size), Eq(k.get("scroll"), scroll)), prop="C06", kind="pre")
+            e.oblige("C06:padding-width-validated-whatever-check_size-says(wider-than-the-terminal-never-reaches-the-renderer)", s,
+                     fw <= T.TW, prop="C06", kind="pre", replay="C06.old_validation")
+            if animation:
+                e.oblige("C06:padding-height-validated-for-animations", s, fh <= T.TH, prop="C06", kind="pre", replay="C06.old_validation")
+            s = e.fork(s)
+            s.pc.append(PW <= T.TW)
             s1 = e.fork(s)
             s1.ghost["validation_failed"] = True
             e.raise_(ExcVal("InvalidSizeError"), s1)
@@ -359,8 +369,10 @@ def old_draw_unit(case, graphics):
             rejected = s.ghost.get("validation_failed") is True or (kind == "raise" and val.cls in ("ValueError", "TypeError") and s.ghost["animated_calls"] == 0 and s.ghost["writes_n"] == 0)
             if rejected:
                 eng.oblige("C06:rejected-before-anything-is-written", s, s.ghost["writes_n"] == 0, prop="C06", kind="raise")
-                if kind == "raise" and val.cls == "ValueError":
-                    pass
+                if kind == "raise" and val.cls == "ValueError" and not s.ghost.get("formatting_rejected") and not s.ghost.get("validation_failed"):
+                    # the only ValueError of draw()'s own: a padding width wider than the terminal - exactly those
+                    eng.oblige("C06:own-ValueError-only-for-a-padding-wider-than-the-terminal(or-taller,for-animations)", s, Or(fw > T.TW, And(animation, fh > T.TH)), prop="C06", kind="raise",
+                               replay="C06.old_validation")
                 continue
             tty_ = to_z3(isatty)
             eng.oblige(f"C07:cursor-visible@{kind}", s, z3.Implies(tty_, to_z3(g["vis"])), prop="C07", kind="exit")
@@ -493,6 +505,7 @@ def handler_unit(rel, cls):
             if inside != "ground":
                 g["parser"], g["cmd_open"] = ("str", inside, [], []), True
             st.ghost["vt"] = g
+            st.ghost["isatty"] = z3.Bool("isatty")      # a stdout that is not a tty may still end up on one (tee, a wrapper stream)
             T.faults = ()                       # (a fault inside the handler itself is the draw's clean-up: excluded by the property)
             outs = run_function(eng, ctx.fn(rel, f"{cls}._handle_interrupted_draw"), st)
             for kind, val, s in outs:
